@@ -126,13 +126,19 @@ Proof.
   destruct (N.eqb (sb_srv b) f); cbn [length]; rewrite IH; reflexivity.
 Qed.
 
+Lemma valid_req_ok q : valid_req q = srv_ok q && cli_ok q.
+Proof.
+  unfold valid_req, srv_ok, cli_ok. destruct (srv_feat (q_srv q)) as [[r ty]|]; [|reflexivity].
+  destruct (cli_feat (q_cli q)) as [[r' ty']|]; [reflexivity | rewrite andb_false_r; reflexivity].
+Qed.
+
 Lemma step_inv s m o : SI s m ->
   let '(m1, v) := mon m o (snd (step s o)) in
   v = [] /\ SI (fst (step s o)) m1.
 Proof.
   intros I. destruct I as [Hreg Hpend Hsingle Hbound Hids Hchk].
   assert (I : SI s m) by (constructor; assumption).
-  destruct o as [t q|t|p srv cli|p|f]; unfold step, step_gen.
+  destruct o as [t q|t|p srv cli|p|f|n q1 q2]; unfold step, step_gen.
   - (* Begin *)
     cbn [mon]. unfold begin_step, is_parked. rewrite Hpend.
     destruct (existsb (fun x => N.eqb (fst x) t) (parked s)); [simpl; split; [reflexivity | exact I]|].
@@ -217,6 +223,13 @@ Proof.
     assert (Hn : length (filter (on3 f) (sreg m)) = length (on_feat s f)) by (rewrite Hreg; apply on3_len).
     rewrite Hn, N.eqb_refl. pose proof (single_count s f Hsingle) as Hle.
     destruct (N.leb_spec (N.of_nat (length (on_feat s f))) 1) as [_|Hgt]; [reflexivity | lia].
+  - (* Race *)
+    cbn [mon]. unfold race_step. destruct (race_ok q1 q2); cbn [negb]; [|simpl; split; [reflexivity | exact I]].
+    unfold race_grants. rewrite (bound_reg s m _ Hreg), !valid_req_ok.
+    match goal with |- context [if ?c then 1%N else 0%N] => set (g := if c then 1%N else 0%N) end.
+    cbn [snd fst]. lazy beta iota. rewrite !N.eqb_refl. split; [reflexivity|].
+    constructor; cbn [binds next parked]; try assumption.
+    intros b Hin. specialize (Hbound b Hin). lia.
 Qed.
 
 Theorem sched_accepted_from ops : forall s m, SI s m -> accepted (judge m (snd (run s ops))) = true.
@@ -265,3 +278,231 @@ Example repaired_trace :
   map snd (snd (run init witness)) =
     [[Parked]; [Parked]; [EvAdd 1 1 1; Res 1 false]; [Res 2 true]; [Cnt 1]].
 Proof. vm_compute. reflexivity. Qed.
+
+(* ---------- the free-running overlap [Race] ---------- *)
+Lemma race_ok_sym q1 q2 : race_ok q1 q2 = race_ok q2 q1.
+Proof.
+  unfold race_ok. rewrite (N.eqb_sym (q_peer q1)), (N.eqb_sym (q_srv q1)).
+  destruct (known_peer (q_peer q1)), (known_peer (q_peer q2)); reflexivity.
+Qed.
+
+(* which request is released first does not matter: same state, same (peer-blanked) observation *)
+Theorem race_order_irrelevant s n q1 q2 : step s (Race n q1 q2) = step s (Race n q2 q1).
+Proof.
+  unfold step, step_gen, race_step. rewrite (race_ok_sym q2 q1).
+  destruct (race_ok q1 q2) eqn:E; [|reflexivity]. cbn [negb].
+  assert (Hs : q_srv q1 = q_srv q2).
+  { unfold race_ok in E. apply andb_true_iff in E. destruct E as [_ E]. apply N.eqb_eq in E. exact E. }
+  unfold race_grants. rewrite Hs, (orb_comm (valid_req q1)). reflexivity.
+Qed.
+
+(* a race leaves the registry as it was *)
+Theorem race_keeps_registry s n q1 q2 : binds (fst (step s (Race n q1 q2))) = binds s.
+Proof. unfold step, step_gen, race_step. destruct (race_ok q1 q2); reflexivity. Qed.
+
+(* one round is the sequential composition "request 1; request 2; delete what was granted", in
+   either order: on the unbound feature the state afterwards is the state of [Race 1] and exactly
+   one request is granted (checked on the empty registry and on a registry with other bindings
+   and a parked request, all four validity combinations) *)
+Definition seq_round (s : st) (t : N) (q1 q2 : req) : st * list (list obs) :=
+  let '(s', tr) := run s [Begin t q1; End t; Begin t q2; End t;
+                          Unbind (q_peer q1) (q_srv q1) (q_cli q1); Unbind (q_peer q2) (q_srv q2) (q_cli q2)] in
+  (s', map snd tr).
+
+Definition grants_in (tr : list (list obs)) : nat :=
+  length (filter (fun o => match o with EvAdd _ _ _ => true | _ => false end) (concat tr)).
+
+Definition eqb_bind (a b : bind) : bool :=
+  N.eqb (sb_id a) (sb_id b) && N.eqb (sb_srv a) (sb_srv b) && N.eqb (sb_peer a) (sb_peer b) && N.eqb (sb_cli a) (sb_cli b).
+Fixpoint eqb_binds (a b : list bind) : bool :=
+  match a, b with [], [] => true | x :: a', y :: b' => eqb_bind x y && eqb_binds a' b' | _, _ => false end.
+
+Definition round_agrees (s : st) (t : N) (q1 q2 : req) : bool :=
+  let '(sa, tra) := seq_round s t q1 q2 in
+  let '(sb, trb) := seq_round s t q2 q1 in
+  let sr := fst (step s (Race 1 q1 q2)) in
+  eqb_binds (binds sa) (binds sr) && eqb_binds (binds sb) (binds sr) &&
+  N.eqb (next sa) (next sr) && N.eqb (next sb) (next sr) &&
+  Nat.eqb (length (parked sa)) (length (parked sr)) && Nat.eqb (length (parked sb)) (length (parked sr)) &&
+  Nat.eqb (grants_in tra) (grants_in trb) &&
+  N.eqb (N.of_nat (grants_in tra)) (race_grants s q1 q2).
+
+Definition mkq (p srv cli typ : N) : req := {| q_peer := p; q_srv := srv; q_cli := cli; q_typ := typ |}.
+Definition busy_state : st :=
+  fst (run init [Begin 1 (mkq 1 2 2 2); End 1; Begin 2 (mkq 3 4 4 1); End 2; Begin 3 (mkq 3 1 1 1)]).
+
+Example race_round_sequential :
+  forallb (fun s => forallb (fun qq => round_agrees s 9 (fst qq) (snd qq))
+     [ (mkq 1 1 1 1, mkq 2 1 1 1);      (* both valid *)
+       (mkq 1 1 1 1, mkq 2 1 3 1);      (* second names a server-role client feature *)
+       (mkq 1 1 2 1, mkq 2 1 4 1);      (* first has the wrong client type, second a Generic client *)
+       (mkq 1 1 3 1, mkq 2 1 7 1);      (* neither valid *)
+       (mkq 3 4 1 1, mkq 2 4 2 2);      (* feature 4 (bound in busy_state) *)
+       (mkq 1 3 1 1, mkq 2 3 1 1) ])    (* client-role server feature *)
+     [init; busy_state] = true.
+Proof. vm_compute. reflexivity. Qed.
+
+(* ---------- one round of a race is the sequential composition, for every state ---------- *)
+Lemma find_parked_snoc (l : list (N * req)) t q :
+  existsb (fun x => N.eqb (fst x) t) l = false ->
+  find (fun x => N.eqb (fst x) t) (l ++ [(t, q)]) = Some (t, q).
+Proof.
+  induction l as [|x l IH]; simpl; intros H; [rewrite N.eqb_refl; reflexivity|].
+  apply orb_false_iff in H. destruct H as [H1 H2]. rewrite H1. apply IH. exact H2.
+Qed.
+
+Lemma unpark_snoc (l : list (N * req)) t q :
+  existsb (fun x => N.eqb (fst x) t) l = false ->
+  filter (fun x => negb (N.eqb (fst x) t)) (l ++ [(t, q)]) = l.
+Proof.
+  induction l as [|x l IH]; simpl; intros H; [rewrite N.eqb_refl; reflexivity|].
+  apply orb_false_iff in H. destruct H as [H1 H2]. rewrite H1. simpl. f_equal. apply IH. exact H2.
+Qed.
+
+Definition same_st (a b : st) : Prop := binds a = binds b /\ next a = next b /\ parked a = parked b.
+
+Definition grant_st (s : st) (q : req) : st :=
+  {| binds := binds s ++ [ {| sb_id := N.succ (next s); sb_srv := q_srv q; sb_peer := q_peer q; sb_cli := q_cli q |} ];
+     next := N.succ (next s); parked := parked s |}.
+
+(* one request handled sequentially (Begin then End of a free thread id) *)
+Lemma request_seq s t q :
+  is_parked s t = false -> known_peer (q_peer q) = true ->
+  same_st (fst (step (fst (step s (Begin t q))) (End t)))
+          (if valid_req q && negb (bound s (q_srv q)) then grant_st s q else s).
+Proof.
+  intros Hp Hk. unfold step, step_gen, begin_step, valid_req. rewrite Hp, Hk. cbn [negb].
+  assert (Hnr : fst (end_step true s t) = s).
+  { unfold end_step. unfold is_parked in Hp.
+    assert (Hf : find (fun x => N.eqb (fst x) t) (parked s) = None).
+    { destruct (find _ (parked s)) as [x|] eqn:Ef; [|reflexivity]. apply find_some in Ef.
+      assert (E : existsb (fun x => N.eqb (fst x) t) (parked s) = true) by (apply existsb_exists; exists x; exact Ef).
+      rewrite E in Hp. discriminate. }
+    rewrite Hf. reflexivity. }
+  destruct (srv_feat (q_srv q)) as [[r ty]|]; [|cbn [fst andb]; rewrite Hnr; repeat split].
+  destruct (role_type_ok r ty RServer (q_typ q)); cbn [negb];
+    [|destruct (cli_feat (q_cli q)) as [[r' ty']|]; cbn [fst andb]; rewrite Hnr; repeat split].
+  destruct (bound s (q_srv q)) eqn:Eb.
+  { destruct (cli_feat (q_cli q)) as [[r' ty']|]; cbn [fst andb negb]; rewrite ?andb_false_r; rewrite Hnr; repeat split. }
+  cbn [fst]. unfold end_step. cbn [parked binds next]. unfold is_parked in Hp.
+  rewrite (find_parked_snoc (parked s) t q Hp). unfold unpark. cbn [parked].
+  rewrite (unpark_snoc (parked s) t q Hp).
+  destruct (cli_feat (q_cli q)) as [[r' ty']|]; [|cbn [fst andb]; repeat split].
+  destruct (role_type_ok r' ty' RClient (q_typ q)); cbn [negb andb fst].
+  - unfold bound at 1. cbn [binds]. fold (bound s (q_srv q)). rewrite Eb. cbn [fst]. repeat split.
+  - repeat split.
+Qed.
+
+Lemma same_st_eq a b : same_st a b -> a = b.
+Proof. destruct a, b. intros [H1 [H2 H3]]. simpl in *. subst. reflexivity. Qed.
+
+Lemma unbound_no_pair s p srv cli : bound s srv = false -> existsb (is_pair p srv cli) (binds s) = false.
+Proof.
+  unfold bound. induction (binds s) as [|b l IH]; simpl; intros H; [reflexivity|].
+  apply orb_false_iff in H. destruct H as [H1 H2]. unfold is_pair at 1. rewrite H1, andb_false_r. simpl. apply IH. exact H2.
+Qed.
+
+Lemma unbound_filter s p srv cli : bound s srv = false ->
+  filter (fun b => negb (is_pair p srv cli b)) (binds s) = binds s.
+Proof.
+  unfold bound. induction (binds s) as [|b l IH]; simpl; intros H; [reflexivity|].
+  apply orb_false_iff in H. destruct H as [H1 H2]. unfold is_pair at 1. rewrite H1, andb_false_r. simpl. f_equal. apply IH. exact H2.
+Qed.
+
+(* deleting a pair that is not bound changes nothing *)
+Lemma unbind_absent s p srv cli : existsb (is_pair p srv cli) (binds s) = false -> fst (unbind_step s p srv cli) = s.
+Proof.
+  intros H. unfold unbind_step. destruct (known_peer p); [|reflexivity]. cbn [negb].
+  destruct (cli_feat cli); [|reflexivity]. destruct (srv_feat srv) as [[r ty]|]; [|reflexivity].
+  destruct (role_type_ok r ty RServer ty); cbn [negb]; [|reflexivity]. rewrite H. reflexivity.
+Qed.
+
+Lemma valid_srv_role q : valid_req q = true ->
+  exists r ty cf, srv_feat (q_srv q) = Some (r, ty) /\ cli_feat (q_cli q) = Some cf /\ role_type_ok r ty RServer ty = true.
+Proof.
+  unfold valid_req. destruct (srv_feat (q_srv q)) as [[r ty]|]; [|discriminate].
+  destruct (cli_feat (q_cli q)) as [cf|]; [|discriminate]. destruct cf as [r' ty'].
+  intros H. apply andb_true_iff in H. destruct H as [H _]. exists r, ty, (r', ty'). split; [reflexivity|]. split; [reflexivity|].
+  unfold role_type_ok in *. apply andb_true_iff in H. destruct H as [H _]. rewrite H, N.eqb_refl. reflexivity.
+Qed.
+
+(* deleting the binding just granted on an unbound feature restores the registry *)
+Lemma unbind_granted s q : known_peer (q_peer q) = true -> valid_req q = true -> bound s (q_srv q) = false ->
+  same_st (fst (unbind_step (grant_st s q) (q_peer q) (q_srv q) (q_cli q)))
+          {| binds := binds s; next := N.succ (next s); parked := parked s |}.
+Proof.
+  intros Hk Hv Hb. destruct (valid_srv_role q Hv) as [r [ty [cf [E1 [E2 E3]]]]].
+  unfold unbind_step. rewrite Hk, E1, E2, E3. cbn [negb]. unfold grant_st at 1. cbn [binds].
+  rewrite existsb_app. cbn [existsb]. unfold is_pair at 2. cbn [sb_peer sb_cli sb_srv]. rewrite !N.eqb_refl. cbn [andb orb].
+  rewrite orb_true_r. cbn [negb fst]. unfold grant_st. cbn [binds next parked].
+  rewrite filter_app, (unbound_filter s _ _ _ Hb). cbn [filter]. unfold is_pair. cbn [sb_peer sb_cli sb_srv].
+  rewrite !N.eqb_refl. cbn [andb negb]. rewrite app_nil_r. repeat split.
+Qed.
+
+(* the binding of another peer is not touched by a delete *)
+Lemma unbind_other s q p cli : N.eqb (q_peer q) p = false -> bound s (q_srv q) = false ->
+  fst (unbind_step (grant_st s q) p (q_srv q) cli) = grant_st s q.
+Proof.
+  intros Hne Hb. apply unbind_absent. unfold grant_st. cbn [binds]. rewrite existsb_app, (unbound_no_pair s _ _ _ Hb).
+  cbn [existsb orb]. unfold is_pair. cbn [sb_peer]. rewrite Hne. reflexivity.
+Qed.
+
+Definition seq_state (s : st) (t : N) (q1 q2 : req) : st :=
+  fst (run s [Begin t q1; End t; Begin t q2; End t;
+              Unbind (q_peer q1) (q_srv q1) (q_cli q1); Unbind (q_peer q2) (q_srv q2) (q_cli q2)]).
+
+Lemma seq_state_unfold s t q1 q2 :
+  seq_state s t q1 q2 =
+  let s1 := fst (step (fst (step s (Begin t q1))) (End t)) in
+  let s2 := fst (step (fst (step s1 (Begin t q2))) (End t)) in
+  fst (unbind_step (fst (unbind_step s2 (q_peer q1) (q_srv q1) (q_cli q1))) (q_peer q2) (q_srv q2) (q_cli q2)).
+Proof.
+  unfold seq_state, run. cbn [run_gen]. unfold step.
+  repeat match goal with |- context [step_gen true ?a ?b] => destruct (step_gen true a b) as [? ?] eqn:? end.
+  cbn [fst] in *. cbn [step_gen] in *.
+  repeat match goal with H : _ = (_, _) |- _ => apply (f_equal fst) in H; cbn [fst] in H end.
+  subst. reflexivity.
+Qed.
+
+(* one round of a race on an unbound feature IS the sequential composition
+   request 1; request 2; delete pair 1; delete pair 2 — for every state and every free thread id *)
+Theorem race_round_general s t q1 q2 :
+  is_parked s t = false -> race_ok q1 q2 = true -> bound s (q_srv q1) = false ->
+  seq_state s t q1 q2 = fst (step s (Race 1 q1 q2)).
+Proof.
+  intros Hp Hok Hb. pose proof Hok as Hok'. unfold race_ok in Hok'.
+  apply andb_true_iff in Hok'. destruct Hok' as [Hok' Hsrv]. apply andb_true_iff in Hok'. destruct Hok' as [Hok' Hne].
+  apply andb_true_iff in Hok'. destruct Hok' as [Hk1 Hk2]. apply N.eqb_eq in Hsrv. apply negb_true_iff in Hne.
+  assert (Hb2 : bound s (q_srv q2) = false) by (rewrite <- Hsrv; exact Hb).
+  unfold step at 1. cbn [step_gen]. unfold race_step, race_grants. rewrite Hok, Hb. cbn [negb andb fst].
+  rewrite seq_state_unfold. cbv zeta.
+  rewrite (same_st_eq _ _ (request_seq s t q1 Hp Hk1)), Hb. cbn [negb]. rewrite andb_true_r.
+  destruct (valid_req q1) eqn:V1; cbn [orb].
+  - assert (Hp1 : is_parked (grant_st s q1) t = false) by exact Hp.
+    assert (Hbound : bound (grant_st s q1) (q_srv q2) = true).
+    { unfold bound, grant_st. cbn [binds]. rewrite existsb_app. cbn [existsb sb_srv]. rewrite Hsrv, N.eqb_refl. rewrite orb_true_r. reflexivity. }
+    rewrite (same_st_eq _ _ (request_seq (grant_st s q1) t q2 Hp1 Hk2)), Hbound. cbn [negb]. rewrite andb_false_r.
+    rewrite (same_st_eq _ _ (unbind_granted s q1 Hk1 V1 Hb)).
+    rewrite unbind_absent by (apply unbound_no_pair; exact Hb2).
+    rewrite N.mul_1_l, N.add_1_r. reflexivity.
+  - rewrite (same_st_eq _ _ (request_seq s t q2 Hp Hk2)), Hb2. cbn [negb]. rewrite andb_true_r.
+    destruct (valid_req q2) eqn:V2.
+    + assert (Hne' : N.eqb (q_peer q2) (q_peer q1) = false) by (rewrite N.eqb_sym; exact Hne).
+      rewrite Hsrv. rewrite (unbind_other s q2 (q_peer q1) (q_cli q1) Hne' Hb2).
+      rewrite (same_st_eq _ _ (unbind_granted s q2 Hk2 V2 Hb2)).
+      rewrite N.mul_1_l, N.add_1_r. reflexivity.
+    + rewrite (unbind_absent s (q_peer q1) (q_srv q1) (q_cli q1) (unbound_no_pair s _ _ _ Hb)).
+      rewrite (unbind_absent s (q_peer q2) (q_srv q2) (q_cli q2) (unbound_no_pair s _ _ _ Hb2)).
+      rewrite N.mul_1_l, N.add_0_r. destruct s; reflexivity.
+Qed.
+
+(* hence in both orders *)
+Corollary race_round_both_orders s t q1 q2 :
+  is_parked s t = false -> race_ok q1 q2 = true -> bound s (q_srv q1) = false ->
+  seq_state s t q1 q2 = seq_state s t q2 q1.
+Proof.
+  intros Hp Hok Hb. rewrite (race_round_general s t q1 q2 Hp Hok Hb).
+  assert (Hs : q_srv q1 = q_srv q2).
+  { unfold race_ok in Hok. apply andb_true_iff in Hok. destruct Hok as [_ E]. apply N.eqb_eq in E. exact E. }
+  rewrite (race_round_general s t q2 q1 Hp); [apply f_equal, race_order_irrelevant | rewrite race_ok_sym; exact Hok | rewrite <- Hs; exact Hb].
+Qed.
